@@ -49,7 +49,16 @@ export function merge(original: any, update: any): any {
       if (Array.isArray(value) && value.length === 0) {
         delete merged[key];
       } else {
-        merged[key] = merge(merged[key], value);
+        // defineProperty, and only own properties: "__proto__" is a legal field name.
+        const current = Object.prototype.hasOwnProperty.call(merged, key)
+          ? merged[key]
+          : undefined;
+        Object.defineProperty(merged, key, {
+          value: merge(current, value),
+          enumerable: true,
+          writable: true,
+          configurable: true
+        });
       }
     }
   }
